@@ -344,24 +344,24 @@ theorem lemma_failed (sc : Scenario) (c : Bool) (res : Res) (finMet finHeld : Bo
     | none =>
       rw [hf] at hres
       obtain ⟨h1, h2, h3⟩ := hres
-      simp only [Bool.and_eq_true, beq_iff_eq, fa, fr]
-      exact ⟨⟨h1, rfl⟩, clean h3 h2⟩
+      simp only [Bool.and_eq_true, fa, fr]
+      exact ⟨⟨by rw [h1]; rfl, rfl⟩, clean h3 h2⟩
     | some bb =>
       rw [hf] at hres
       cases bb with
       | panic => simp only at hres; subst hres; simp only [Bool.or_eq_true, beq_iff_eq]; left; rfl
       | ok =>
         obtain ⟨h1, h2, h3⟩ := hres
-        simp only [Bool.and_eq_true, beq_iff_eq, fa, fr]; exact ⟨⟨h1, rfl⟩, clean h3 h2⟩
+        simp only [Bool.and_eq_true, fa, fr]; exact ⟨⟨by rw [h1]; rfl, rfl⟩, clean h3 h2⟩
       | err =>
         obtain ⟨h1, h2, h3⟩ := hres
-        simp only [Bool.and_eq_true, beq_iff_eq, fa, fr]; exact ⟨⟨h1, rfl⟩, clean h3 h2⟩
+        simp only [Bool.and_eq_true, fa, fr]; exact ⟨⟨by rw [h1]; rfl, rfl⟩, clean h3 h2⟩
       | block =>
         obtain ⟨h1, h2, h3⟩ := hres
-        simp only [Bool.and_eq_true, beq_iff_eq, fa, fr]; exact ⟨⟨h1, rfl⟩, clean h3 h2⟩
+        simp only [Bool.and_eq_true, fa, fr]; exact ⟨⟨by rw [h1]; rfl, rfl⟩, clean h3 h2⟩
       | cancelOk =>
         obtain ⟨h1, h2, h3⟩ := hres
-        simp only [Bool.and_eq_true, beq_iff_eq, fa, fr]; exact ⟨⟨h1, rfl⟩, clean h3 h2⟩
+        simp only [Bool.and_eq_true, fa, fr]; exact ⟨⟨by rw [h1]; rfl, rfl⟩, clean h3 h2⟩
 
 
 theorem lemma_any_append_left {l : List Ev} (l2 : List Ev) (p : Ev → Bool) (h : l.any p = true) :
